@@ -250,6 +250,11 @@ type PSilence struct {
 	EndOff    Dur    `json:"end_off"`
 	Comment   string `json:"comment,omitempty"`
 	CreatedBy string `json:"created_by,omitempty"`
+	// KeepStart/KeepEnd: send the currently stored start/end of EditOf instead of the offsets.
+	KeepStart bool `json:"keep_start,omitempty"`
+	KeepEnd   bool `json:"keep_end,omitempty"`
+	// RawID, when set, is sent as the id (unknown-id edits).
+	RawID string `json:"raw_id,omitempty"`
 }
 
 // Action is one timed step of the client workload or fault schedule.
@@ -335,6 +340,8 @@ type Plan struct {
 	Faults  []RcvFault `json:"rcv_faults,omitempty"`
 	Holds   []Hold     `json:"holds,omitempty"`
 	Net     *NetPlan   `json:"net,omitempty"`
+	// LabelSets are the label sets probes are made for.
+	LabelSets []map[string]string `json:"label_sets,omitempty"`
 	// Params carries property-specific knobs the oracle needs.
 	Params map[string]any `json:"params,omitempty"`
 }
